@@ -15,16 +15,15 @@ META = {
         "Lean model XdslModel/StructEq.lean: IR trees (operations with name, operand ids, results "
         "(id,type), attribute/property lists, successor ids, regions; blocks with id, (id,type) "
         "arguments, operations) and `structEq`, the walk of Operation/Block/Region."
-        "is_structurally_equivalent with its context dictionary exactly as the (repaired) Python runs "
-        "it.  `Iso a b` = a map of values and blocks, identity outside a's definitions and one-to-one on "
+        "is_structurally_equivalent with its context dictionary and the final one-to-one check "
+        "exactly as the (repaired) Python runs it.  `Iso a b` = a map of values and blocks, identity outside a's definitions and one-to-one on "
         "everything a mentions, under which every field agrees (the property's sentence).  Theorems "
         "(XdslProofs/C03.lean): structEq_refl for every tree (graph regions, forward and even ill-scoped "
         "references included); isoDecide_iff (the positional decision procedure decides Iso); "
-        "structEq_complete (Iso ⇒ structEq for region-scoped trees), structEq_sound_partial and "
-        "structEq_iff_iso_partial (⇐ and ⇔ when values a takes from outside are not definitions of b), "
-        "structEq_symm_partial (same separation both ways), structEq_clone (a tree and its renamed "
-        "copy with external references kept), plus counterexample theorems for the separation "
-        "hypothesis.  Tie to /repo: every generated / corpus / mutated pair is run through the real "
+        "structEq_complete (Iso ⇒ structEq for region-scoped trees), structEq_sound and "
+        "structEq_iff_iso (⇒ and ⇔; the final one-to-one step of the repaired code rejects a tree that "
+        "takes a definition of the other tree from outside, lemma oneToOne_iff_sep), structEq_symm, "
+        "structEq_clone (a tree and its renamed copy with external references kept).  Tie to /repo: every generated / corpus / mutated pair is run through the real "
         "methods, through an independent Python isomorphism oracle (canonical numbering by first "
         "occurrence) and through the Lean driver (`eq` = model of the code, `iso` = proved decision "
         "procedure); all three verdicts are compared pair by pair."
